@@ -38,7 +38,11 @@ class FakeSock:
         if pending <= 0:
             return 0
         hi = min(limit, pending)
-        if self.k < self.n_sym and hi > 1:
+        if self.k < self.n_sym and hi > 64:
+            # long reads: the segment boundary is one of a listed set of positions (every position for reads of up to 64 bytes, i.e. everywhere in the header and in short replies)
+            cands = sorted({1, 2, 7, 8, 9, 15, 16, 17, hi // 2, hi - 16, hi - 1, hi})
+            k = cands[c.concretize(c.int(f"chunk{self.k}_choice", 0, len(cands) - 1))]
+        elif self.k < self.n_sym and hi > 1:
             k = c.int(f"chunk{self.k}", 1, hi)
             k = c.concretize(k)
         else:
@@ -140,8 +144,10 @@ KINDS_T = [("response", 0), ("response", 8), ("response", 23), ("bind_ack", 1), 
 
 def _seg_params(tier):
     if tier == "quick":
-        return [dict(kind="response", extra=8, chunks=2), dict(kind="bind_ack", extra=1, chunks=2), dict(kind="fault", extra=0, chunks=3)]
-    return [dict(kind=k, extra=e, chunks=3) for k, e in KINDS_T] + [dict(kind="response", extra=0, chunks=5), dict(kind="fault", extra=0, chunks=4)]
+        return [dict(kind="response", extra=8, chunks=2), dict(kind="bind_ack", extra=1, chunks=2), dict(kind="fault", extra=0, chunks=3),
+                dict(kind="response", extra=300, chunks=3)]
+    return [dict(kind=k, extra=e, chunks=3) for k, e in KINDS_T] + [dict(kind="response", extra=0, chunks=5), dict(kind="fault", extra=0, chunks=4)] + \
+           [dict(kind="response", extra=e, chunks=3) for e in (231, 232, 233, 300, 1000)] + [dict(kind="response", extra=65000, chunks=2)] + [dict(kind="bind_ack", extra=12, chunks=3)]
 
 
 def _expect(c, data):
@@ -149,9 +155,11 @@ def _expect(c, data):
 
 
 @harness(P, params=_seg_params, raises=(ValueError,), max_steps=100000,
-         bounds="sync client: replies {response, fault, bind_ack, alter_context_resp} of listed sizes (24..64 bytes, last 6 bytes symbolic); the first `chunks` reads return a "
-         "solver-chosen number of bytes (every cut position, including inside the 16-byte header), later reads return everything asked for; 3 chunks quick, up to 5 thorough",
-         outside="more symbolic chunks; larger replies (the read loop is the same)", must_reach=("sync: same PDU as unsegmented",))
+         bounds="sync client: replies {response, fault, bind_ack, alter_context_resp} of listed sizes (24..64 bytes, and a response of 324 bytes whose frag_len needs both "
+         "octets; thorough: also 255/256/257, 1024, 65024 and a 316-byte bind_ack; last 6 bytes symbolic); the first `chunks` reads return a solver-chosen number of bytes (every cut "
+         "position for reads of up to 64 bytes - in particular everywhere inside the 16-byte header - and 12 listed positions for longer reads), later reads return everything "
+         "asked for; 2-3 chunks quick, up to 5 thorough",
+         outside="more symbolic chunks; other reply sizes; unlisted cut positions inside long body reads", must_reach=("sync: same PDU as unsegmented",))
 def segmentation_sync(c, kind, extra, chunks):
     cls, data = _reply(c, kind, extra)
     sock = FakeSock(c, data, chunks)
